@@ -174,6 +174,12 @@ void cv_sparse_digit_sample(CellVec *c, int res, int n) {
     static const int bcs[] = {4, 58, 117, 20};
     for (int b = 0; b < 4 && res >= 1; b++) { int p = 1 + (int)vt_randn(res > 3 ? 3 : res); uint64_t h = ((uint64_t)1 << 59) | ((uint64_t)res << 52) | ((uint64_t)bcs[b] << 45) | ((uint64_t)(2 + vt_randn(5)) << (3 * (15 - p)));
         for (int r = res + 1; r <= 15; r++) h |= (uint64_t)7 << (3 * (15 - r)); if (isValidCell(h)) cv_push(c, h); }
+    /* always: the centre descendant (all digits 0) of one hexagon and one pentagon base cell, and a cell with a single non-zero
+       digit at the finest position below a long run of centre digits */
+    { static const int hb[] = {0, 20, 65, 121, 33, 100}, pb[] = {4, 14, 38, 58, 97, 117};
+      for (int t = 0; t < 2; t++) { int bc = t ? pb[vt_randn(6)] : hb[vt_randn(6)]; uint64_t h = ((uint64_t)1 << 59) | ((uint64_t)res << 52) | ((uint64_t)bc << 45);
+          for (int r = res + 1; r <= 15; r++) h |= (uint64_t)7 << (3 * (15 - r)); if (isValidCell(h)) cv_push(c, h);
+          if (res >= 1) { uint64_t g = h | ((uint64_t)(2 + vt_randn(5)) << (3 * (15 - res))); if (isValidCell(g)) cv_push(c, g); } } }
     for (int k = 0; k < n && all.n > 0; k++) cv_push(c, all.v[vt_randn(all.n)]);
     cv_free(&all);
 }
